@@ -263,4 +263,46 @@ theorem addedIds_run (ops : List Op) : ∀ g : SpecRouter,
       simp only [SpecRouter.run, SpecRouter.step, addedIds] at this ⊢
       exact this
 
+/-- The ids returned by successful registrations. -/
+def returnedIds : List Obs → List Nat
+  | [] => []
+  | .added i :: t => i :: returnedIds t
+  | _ :: t => returnedIds t
+
+theorem returnedIds_eq : ∀ (obs : List Obs) (sobs : List SpecObs), obs.map Obs.view = sobs.map some →
+    returnedIds obs = addedIds sobs := by
+  intro obs
+  induction obs with
+  | nil =>
+    intro sobs h
+    cases sobs with
+    | nil => rfl
+    | cons _ _ => simp at h
+  | cons o t ih =>
+    intro sobs h
+    cases sobs with
+    | nil => simp at h
+    | cons so st =>
+      simp only [List.map_cons, List.cons.injEq] at h
+      obtain ⟨h1, h2⟩ := h
+      have iht := ih st h2
+      cases o with
+      | added i =>
+        simp only [Obs.view, Option.some.injEq] at h1
+        subst h1
+        simp [returnedIds, addedIds, iht]
+      | addFailed => simp [Obs.view] at h1
+      | deleted =>
+        simp only [Obs.view, Option.some.injEq] at h1
+        subst h1
+        simp [returnedIds, addedIds, iht]
+      | keyError =>
+        simp only [Obs.view, Option.some.injEq] at h1
+        subst h1
+        simp [returnedIds, addedIds, iht]
+      | routed r =>
+        simp only [Obs.view, Option.some.injEq] at h1
+        subst h1
+        simp [returnedIds, addedIds, iht]
+
 end Txdbus.Route
